@@ -7,6 +7,9 @@ From Scalibr Require Import Lib.SortSearch Image.PathTree Image.PathTreeProofs I
   Image.ListingProofs.
 Import ListNotations.
 
+(* a regular-file member (a file or a whiteout marker): what handleFile writes *)
+Definition is_file (e : entry) : bool := match e_kind e with KReg => true | _ => false end.
+
 (* where handleFile writes the member *)
 Definition e_rsegs (e : entry) : list seg := snd (clean_str (e_name e)).
 
@@ -15,11 +18,11 @@ Definition e_rsegs (e : entry) : list seg := snd (clean_str (e_name e)).
 Fixpoint rsegs_distinct (es : list entry) : bool :=
   match es with
   | [] => true
-  | e :: r => negb (is_reg e && existsb (fun x => is_reg x && segs_eqb (e_rsegs x) (e_rsegs e)) r) && rsegs_distinct r
+  | e :: r => negb (is_file e && existsb (fun x => is_file x && segs_eqb (e_rsegs x) (e_rsegs e)) r) && rsegs_distinct r
   end.
 
 Definition content_ok (e : entry) : bool :=
-  negb (is_reg e && negb (e_whf e)) || segs_eqb (real_segs (e_vp e)) (e_rsegs e).
+  negb (is_file e && negb (e_whf e)) || segs_eqb (real_segs (e_vp e)) (e_rsegs e).
 
 Definition Dc (im : image) : bool :=
   forallb (fun s => forallb content_ok (slot_es s) && rsegs_distinct (slot_es s)) (all_slots im).
@@ -88,12 +91,12 @@ Lemma process_entry_disk cfg i st e st' :
   entry_ok cfg e = true ->
   get (nth i (st_chains st) empty_trie) (e_vp e) = None ->
   process_entry cfg i st e = Next st' ->
-  (is_reg e = true -> forall old, disk_get (st_disk st) (i, e_rsegs e) <> Some (DFile old)) ->
-  (is_reg e = true -> disk_get (st_disk st') (i, e_rsegs e) = Some (DFile (e_content e))) /\
-  forall k x, (is_reg e = true -> k <> (i, e_rsegs e)) ->
+  (is_file e = true -> forall old, disk_get (st_disk st) (i, e_rsegs e) <> Some (DFile old)) ->
+  (is_file e = true -> disk_get (st_disk st') (i, e_rsegs e) = Some (DFile (e_content e))) /\
+  forall k x, (is_file e = true -> k <> (i, e_rsegs e)) ->
     (disk_get (st_disk st') k = Some (DFile x) <-> disk_get (st_disk st) k = Some (DFile x)).
 Proof.
-  unfold entry_ok, e_node, e_vp, e_vsegs, e_whf, e_plan, process_entry, e_rsegs, is_reg.
+  unfold entry_ok, e_node, e_tgt, e_vp, e_vsegs, e_whf, e_plan, process_entry, e_rsegs, is_file.
   destruct (clean_str (e_name e)) as [ab sg] eqn:C.
   destruct (entry_vpath e (ab, sg)) as [[vab vsegs] wh] eqn:EV.
   cbn [fst snd].
@@ -116,17 +119,20 @@ Proof.
     rewrite take_z_all in WF by lia.
     destruct (write_file_spec i sg (e_content e) (st_disk st) d1 WF (NF eq_refl)) as [W1 W2].
     split; [intros _; exact W1|]. intros k x Nk. apply W2. apply Nk. reflexivity.
+  - destruct (e_target e) as [|c0 tl]; [discriminate|].
+    destruct (target_outside_root vsegs (c0 :: tl)); [discriminate|].
+    intros E _. inversion E; subst st'. cbn [st_disk]. split; [discriminate|]. intros k x _. tauto.
 Qed.
 
 (* ------------------------------------------------------------------ the invariant of the extraction directory *)
 Definition pairs_of (done : list slot) : list (nat * entry) := flat_map (fun s => map (pair (fst s)) (slot_es s)) done.
 
 Definition written (ps : list (nat * entry)) (d : disk) : Prop :=
-  (forall j e, In (j, e) ps -> is_reg e = true -> disk_get d (j, e_rsegs e) = Some (DFile (e_content e))) /\
-  (forall k x, disk_get d k = Some (DFile x) -> exists j e, In (j, e) ps /\ is_reg e = true /\ k = (j, e_rsegs e)).
+  (forall j e, In (j, e) ps -> is_file e = true -> disk_get d (j, e_rsegs e) = Some (DFile (e_content e))) /\
+  (forall k x, disk_get d k = Some (DFile x) -> exists j e, In (j, e) ps /\ is_file e = true /\ k = (j, e_rsegs e)).
 
 Lemma rsegs_distinct_split : forall est e r, rsegs_distinct (est ++ e :: r) = true ->
-  forall x, In x est -> is_reg x = true -> is_reg e = true -> e_rsegs x <> e_rsegs e.
+  forall x, In x est -> is_file x = true -> is_file e = true -> e_rsegs x <> e_rsegs e.
 Proof.
   induction est as [|y est IH]; intros e r H x HI Rx Re; [destruct HI|].
   simpl in H. apply andb_true_iff in H as [H1 H2]. destruct HI as [E|HI]; [|eapply IH; eauto].
@@ -137,10 +143,10 @@ Qed.
 
 Lemma written_step j e ps d d' :
   written ps d ->
-  (is_reg e = true -> forall j' e', In (j', e') ps -> is_reg e' = true -> (j', e_rsegs e') <> (j, e_rsegs e)) ->
-  ((is_reg e = true -> forall old, disk_get d (j, e_rsegs e) <> Some (DFile old)) ->
-   (is_reg e = true -> disk_get d' (j, e_rsegs e) = Some (DFile (e_content e))) /\
-   forall k x, (is_reg e = true -> k <> (j, e_rsegs e)) -> (disk_get d' k = Some (DFile x) <-> disk_get d k = Some (DFile x))) ->
+  (is_file e = true -> forall j' e', In (j', e') ps -> is_file e' = true -> (j', e_rsegs e') <> (j, e_rsegs e)) ->
+  ((is_file e = true -> forall old, disk_get d (j, e_rsegs e) <> Some (DFile old)) ->
+   (is_file e = true -> disk_get d' (j, e_rsegs e) = Some (DFile (e_content e))) /\
+   forall k x, (is_file e = true -> k <> (j, e_rsegs e)) -> (disk_get d' k = Some (DFile x) <-> disk_get d k = Some (DFile x))) ->
   written (ps ++ [(j, e)]) d'.
 Proof.
   intros [W1 W2] FRESH STEP.
@@ -150,7 +156,7 @@ Proof.
   - intros j0 e0 HI R0. apply in_app_or in HI as [HI|[E|[]]].
     + apply S2; [|apply W1; assumption]. intros Re EQ. apply (FRESH Re j0 e0 HI R0). exact EQ.
     + inversion E; subst. apply S1. exact R0.
-  - intros k x G. destruct (is_reg e) eqn:Re.
+  - intros k x G. destruct (is_file e) eqn:Re.
     + destruct (dkey_eqb k (j, e_rsegs e)) eqn:EK.
       * apply dkey_eqb_eq in EK. exists j, e. split; [apply in_or_app; right; left; reflexivity|auto].
       * assert (NK : k <> (j, e_rsegs e)) by (intro X; subst; rewrite (proj2 (dkey_eqb_eq _ _) eq_refl) in EK; discriminate).
@@ -279,6 +285,17 @@ Proof.
   - intro H. inversion H; subst. simpl. discriminate.
 Qed.
 
+Lemma classify_reg_kind maxb j e p s :
+  classify maxb j e = Some (MEntry p s) -> se_kind s = SKReg -> e_kind e = KReg.
+Proof.
+  unfold classify. destruct (norm_name (e_name e)) as [[|x sg]|]; try discriminate.
+  destruct (str_eqb (last (x :: sg) []) s_opq); [discriminate|].
+  destruct (has_prefix s_wh (last (x :: sg) [])); [discriminate|].
+  destruct (e_kind e); try discriminate; try reflexivity.
+  - intro H. inversion H; subst. simpl. discriminate.
+  - intro H. inversion H; subst. simpl. discriminate.
+Qed.
+
 (* (2) a regular file of the overlay is read back with the overlay's content -- before the final pruning *)
 Theorem view_content_eq_overlay_on_Dp_unpruned_lemma cfg im st :
   Dp cfg im = true -> Dc im = true -> load_unpruned cfg im = Some st ->
@@ -318,8 +335,8 @@ Proof.
   pose proof (entry_ok_facts _ _ OKd) as Fd.
   destruct (classify_ok cfg j d OKd) as [[W C]|[W (s1 & C & _ & KD)]]; [rewrite C in CL; discriminate|].
   rewrite C in CL. inversion CL; subst q s1.
-  assert (Rd : is_reg d = true).
-  { unfold is_dir_entry in KD. rewrite K in KD. destruct (ef_kind d Fd) as [(X & _)|(X & _)]; [congruence|exact X]. }
+  assert (Rd : is_file d = true).
+  { unfold is_file. rewrite (classify_reg_kind _ _ _ _ _ C K). reflexivity. }
   (* the implementation side: the node and the file *)
   pose proof (view_inv_lemma cfg im st DP LU i Hi) as [_ INV].
   unfold impl_content. rewrite (INV p Np), S. simpl.
